@@ -400,6 +400,15 @@ fn gen_x(r: &mut StdRng, n: usize, p: usize) -> (Vec<Vec<f64>>, i64, &'static st
             }
         }
         (x, 8, "dyadic")
+    } else if fam < 95 {
+        // feature values a few units in the last place apart (continuous data at its finest grain)
+        let base = *[1.0f64, 0.1, 3.0, -2.5, 1.0e-3, 12345.678].choose(r).unwrap();
+        for row in x.iter_mut() {
+            for v in row.iter_mut() {
+                *v = ulps(base, r.gen_range(0..=5));
+            }
+        }
+        (x, 0, "adjacent")
     } else {
         // mixture: some constant features, one binary, the rest distinct
         for j in 0..p {
@@ -417,6 +426,11 @@ fn gen_x(r: &mut StdRng, n: usize, p: usize) -> (Vec<Vec<f64>>, i64, &'static st
         }
         (x, 1, "mixed")
     }
+}
+
+/// the float `k` units in the last place above `base` (towards larger magnitude)
+fn ulps(base: f64, k: u64) -> f64 {
+    f64::from_bits(base.to_bits() + k)
 }
 
 fn gen_queries(r: &mut StdRng, x: &[Vec<f64>], xden: i64, m: usize) -> Vec<Vec<f64>> {
@@ -539,6 +553,14 @@ fn fixed_cases() -> Vec<Case> {
     v.push(mk("reg", "mse", 0, 2, 2, col(&[0, 1, 2, 3, 4]), yv(&[0, 0, 9, 9, 9]), "fixed"));
     v.push(mk("reg", "mse", 0, 2, 4, col(&[0, 1, 2, 3]), yv(&[0, 5, 6, 20]), "fixed"));
     v.push(mk("cls", "gini", 0, 3, 2, col(&[0, 1, 2, 3, 4, 5]), yv(&[0, 0, 0, 1, 1, 1]), "fixed"));
+    // neighbouring doubles: the midpoint of two adjacent floats is one of them
+    for &(kind, crit) in [("reg", "mse"), ("cls", "gini")].iter() {
+        let xs: Vec<Vec<f64>> = (0..6u64).map(|k| vec![ulps(1.0, k)]).collect();
+        let mut c = mk(kind, crit, 0, 1, 0, xs, yv(&[0, 1, 0, 1, 0, 1]), "adjacent");
+        c.xden = 0;
+        c.q = vec![vec![1.0], vec![ulps(1.0, 3)]];
+        v.push(c);
+    }
     // depth limits on a chain that wants depth 4
     for md in 1..=5u16 {
         v.push(mk("reg", "mse", md, 1, 2, col(&[0, 1, 2, 3, 4, 5, 6, 7]), yv(&[0, 1, 3, 6, 10, 15, 21, 28]), "fixed"));
@@ -571,7 +593,7 @@ fn main() {
                 run += 1;
                 case_events(run, &c, &mut out);
             }
-            let cnt: usize = std::env::var("C05_CASES").ok().and_then(|s| s.parse().ok()).unwrap_or(if th { 2600 } else { 330 });
+            let cnt: usize = std::env::var("C05_CASES").ok().and_then(|s| s.parse().ok()).unwrap_or(if th { 4000 } else { 330 });
             for _ in 0..cnt {
                 let c = gen_case(&mut r, 150);
                 run += 1;
@@ -596,7 +618,11 @@ fn main() {
                 // the model enumerates canonical (sorted) multisets of rows: present them in a
                 // seeded random order
                 let mut perm: Vec<usize> = (0..l["X"].as_array().unwrap().len()).collect();
-                perm.shuffle(&mut r);
+                // (a model run that fixes the order of equal feature values to "by row index"
+                // describes the rows in the order given)
+                if l["ties"] != "stable" {
+                    perm.shuffle(&mut r);
+                }
                 let x0: Vec<Vec<f64>> = l["X"].as_array().unwrap().iter()
                     .map(|r| r.as_array().unwrap().iter().map(num).collect()).collect();
                 let y0: Vec<f64> = l["y"].as_array().unwrap().iter().map(num).collect();
